@@ -7,6 +7,18 @@ class BCTParamError(RuntimeError):
     pass
 
 
+# Verification hooks (off unless BCTPY_VERIF=1): instrumented loops report their
+# state to the sinks registered here; with the guard off nothing is ever called.
+import os as _os
+_VERIF = _os.environ.get("BCTPY_VERIF") == "1"
+_verif_sinks = []
+
+
+def _verif_emit(ev, **fields):
+    for sink in _verif_sinks:
+        sink(ev, fields)
+
+
 def teachers_round(x):
     '''
     Do rounding such that .5 always rounds to 1, and not bankers rounding.
